@@ -647,3 +647,81 @@ pub fn record_bigsent(a: &HashMap<String, String>) -> i32 {
     }
     0
 }
+
+/// C04 over a LONG history: one worker serves a few sentences and then the same sentence more than
+/// 65536 times (a server that keeps one worker per thread does this within hours).  Every result is
+/// compared with what a fresh worker gives; the event carries the verdict, the first index at which
+/// they differ and the two results there.
+pub fn record_longlife(a: &HashMap<String, String>) -> i32 {
+    let seed: u64 = a.get("seed").and_then(|s| s.parse().ok()).unwrap_or(1);
+    let n: usize = a.get("n").and_then(|s| s.parse().ok()).unwrap_or(12);
+    let reps: usize = a.get("reps").and_then(|s| s.parse().ok()).unwrap_or(65600);
+    let out = a.get("out").expect("--out");
+    let mut rng = Rng::new(seed ^ 0x1064);
+    let mut evs: Vec<Value> = vec![];
+    let mut done = 0;
+    while done < n {
+        let cfg = GenCfg { conn_kind: (done % 3) as u8, ..Default::default() };
+        let d = gen_dict(&mut rng, &cfg);
+        let dict = match catch_unwind(AssertUnwindSafe(|| d.build())) {
+            Ok(Ok(x)) => x,
+            _ => continue,
+        };
+        let isp = d.space_cat() >= 0 && rng.chance(1, 3);
+        let mgl = if rng.chance(1, 2) { 0 } else { 1 + rng.below(3) };
+        let tok = match Tokenizer::new(dict).ignore_space(isp) {
+            Ok(t) => t.max_grouping_len(mgl),
+            Err(_) => continue,
+        };
+        let prevs: Vec<Vec<u32>> = (0..3).map(|_| gen_sentence(&mut rng, &d, 8)).collect();
+        // the repeated sentence: a variant of one of the earlier ones (same length, other first
+        // character) half of the time, so that the two lattices differ in a few boundaries only
+        let mut s = if rng.chance(1, 2) && !prevs[0].is_empty() { prevs[0].clone() } else { gen_sentence(&mut rng, &d, 8) };
+        if !s.is_empty() && rng.chance(1, 2) {
+            s[0] = *rng.pick(LETTERS);
+        }
+        crate::progress::note(&json!({"longlife": done, "D": d.to_json(), "s": s, "prevs": prevs}).to_string());
+        let r = catch_unwind(AssertUnwindSafe(|| {
+            let text = cps_to_string(&s);
+            let mut fresh = tok.new_worker();
+            fresh.reset_sentence(&text);
+            fresh.tokenize();
+            let want = tokens_json(&fresh);
+            let mut w = tok.new_worker();
+            for p in &prevs {
+                w.reset_sentence(cps_to_string(p));
+                w.tokenize();
+            }
+            let (mut bad, mut first, mut got_first) = (0usize, -1i64, Value::Null);
+            for i in 0..reps {
+                w.reset_sentence(&text);
+                w.tokenize();
+                // cheap comparison first (token count and total cost), the full one when they agree
+                let same = w.num_tokens() == fresh.num_tokens()
+                    && (0..w.num_tokens()).all(|k| {
+                        let (x, y) = (w.token(k), fresh.token(k));
+                        x.range_char() == y.range_char() && x.total_cost() == y.total_cost() && x.word_idx() == y.word_idx()
+                    });
+                if !same {
+                    bad += 1;
+                    if first < 0 {
+                        first = i as i64;
+                        got_first = tokens_json(&w);
+                    }
+                }
+                if i % 8192 == 0 {
+                    crate::progress::beat();
+                }
+            }
+            (bad, first, want, got_first)
+        }));
+        evs.push(match r {
+            Ok((bad, first, want, got)) => json!({"ev": "longlife", "reps": reps, "panic": false, "mismatches": bad, "first": first,
+                                                   "s": s, "prevs": prevs, "fresh": want, "got": if first < 0 { json!([]) } else { got }}),
+            Err(_) => json!({"ev": "longlife", "reps": reps, "panic": true, "mismatches": 0, "first": -1, "s": s, "prevs": prevs, "fresh": [], "got": []}),
+        });
+        done += 1;
+    }
+    write_lines(out, &evs);
+    0
+}
